@@ -638,6 +638,11 @@ func runC06(a *Args) error {
 		w.Count("obs_authentic_timestamp", strings.SplitN(c.ObsTs, " ", 2)[0])
 		w.Count("rejected", fmt.Sprint(c.Rejected))
 		w.Count("token_kind", c.Tok.Kind)
+		if schemeTerm == "X509" && facts.verify && facts.rules && c.ObsTs == "Passed" && len(roots) > 0 {
+			// the positive countersignature branch is driven on the real code: the mini-TSA's chain is accepted by
+			// tspclient-go, crypto/x509 and notation-core-go's ValidateTimestampingCertChain
+			w.Count("positive_tsa_branch", fmt.Sprintf("passed with a token verified under the tsa stores (TSA chain of %d)", len(facts.chain)))
+		}
 	}
 
 	generate(a, rng, runCase)
